@@ -158,6 +158,24 @@ def ty_term(h, unknown: list | None = None) -> str:
     return "TOpaque"
 
 
+def cell_term(v) -> str:
+    if v is None:
+        return "CNone"
+    if type(v) is str:
+        return f"(CStr {cstr(v)})"
+    if type(v) is bool:
+        return f"(CBool {coq_bool(v)})"
+    if type(v) is int:
+        return f"(CInt ({v})%Z)"
+    if type(v) is float:
+        return f"(CFloat {cstr(repr(v))})"
+    if isinstance(v, (datetime.datetime, datetime.date, datetime.time)):
+        return f"(CDateTimeLike {cstr(v.isoformat())})"
+    if isinstance(v, datetime.timedelta):
+        return f"(CTimedelta {cstr(str(v))})"
+    return f"(CForeign {cstr(type(v).__name__)})"
+
+
 # ------------------------------------------------------------------------------------ G: registry
 def post_init_strips(cls) -> tuple[list[str], list[str]]:
     """Fields X with `self.X = self.X.strip()` in __post_init__; second component = statements of a
@@ -227,7 +245,8 @@ def gen_registry(ctx):
         for b in bad:
             problems.append(f"{name}.__post_init__: statement not covered by the model: {b}")
         rows.append(f"  {{| c_name := {cstr(name)};\n     c_fields := {coq_list(flds)};\n"
-                    f"     c_strip := {coq_list([cstr(x) for x in strips])} |}}")
+                    f"     c_strip := {coq_list([cstr(x) for x in strips])};\n"
+                    f"     c_abstract := {coq_bool(not can_instantiate(cls))} |}}")
     ifaces = sorted(n for n in dir(data_types)
                     if isinstance(getattr(data_types, n), type) and getattr(data_types, n).__module__ == data_types.__name__
                     and not dataclasses.is_dataclass(getattr(data_types, n)))
@@ -238,12 +257,35 @@ def gen_registry(ctx):
     txt += "(* classes of data_types that are not dataclasses (Protocol interfaces): allowed in hints *)\n"
     txt += "Definition IFACES : list str := " + coq_list([cstr(x) for x in ifaces]) + ".\n\n"
     txt += "(* code points c with chr(c).isspace() *)\nDefinition WS : list N := " + nlist(ws) + ".\n"
+    # witnesses built from the live classes (so that a field rename does not break them)
+    wit_marker = witness_marker(reg)
+    wit_clean = witness_clean(reg)
+    txt += "\n(* an XLS-like sheet whose header cell is named like a marker (replayed on the real code too) *)\n"
+    txt += "Definition marker_witness : val := " + val_term(wit_marker) + ".\n"
+    txt += "\n(* an instance with nested dataclasses and binary payloads satisfying the round-trip hypotheses *)\n"
+    txt += "Definition clean_witness : val := " + val_term(wit_clean) + ".\n"
     ctx.gen_write("Gen/C05Registry.v", txt)
     ctx.obligation("registry-dump: every hint in the modelled grammar, constructors as modelled",
                    not unknown and not problems, "; ".join(problems + ["unmodelled hint " + u for u in unknown]))
     ctx.extra["registry_classes"] = len(reg)
     ctx.extra["registry_fields"] = sum(len(dataclasses.fields(c)) for c in reg.values())
     return reg, problems + unknown
+
+
+def witness_marker(reg):
+    sheet = reg["XlsSheet"](name="Sheet1", data=[{"_bytes": 5, "name": "a"}], text="x")
+    try:
+        return reg["XlsContent"](sheets=[sheet])
+    except Exception:  # noqa
+        return sheet
+
+
+def witness_clean(reg):
+    att = reg["EmailAttachment"](filename="a.bin", mime_type="application/octet-stream", data=io.BytesIO(b"\x00\x01payload"))
+    att.data.seek(3)
+    return reg["EmailContent"](from_email=reg["EmailAddress"](name="A", address="a@b.c"), subject="hello",
+                               to_emails=[reg["EmailAddress"](name="B", address="b@b.c")], body_plain="text",
+                               attachments=[att])
 
 
 def _classes_in(h):
@@ -268,11 +310,11 @@ class Gen:
     def __init__(self, ctx, reg):
         self.rng = ctx.rng
         self.reg = reg
-        self.names = list(reg)
         from sharepoint2text.parsing.extractors import serialization as S
         self.hints = {n: S._get_field_types(c) for n, c in reg.items()}
-        self.p_marker = 0.06
-        self.p_other = 0.04
+        self.names = [n for n, c in reg.items() if can_instantiate(c)]
+        self.p_marker = 0.12
+        self.p_other = 0.08
 
     def s(self):
         return self.rng.choice(STR_VOCAB)
@@ -374,9 +416,11 @@ class Gen:
             return self.of(a, depth)
         if isinstance(h, type):
             if h.__name__ in self.reg:
-                subs = [n for n, c in self.reg.items() if issubclass(c, h)] if depth < 3 else [h.__name__]
-                return self.instance(r.choice(subs), depth + 1)
-            impl = [n for n, c in self.reg.items() if h in c.__mro__]
+                subs = [n for n in self.names if issubclass(self.reg[n], h)]
+                if depth >= 3 and h.__name__ in subs:
+                    subs = [h.__name__]
+                return self.instance(r.choice(subs), depth + 1) if subs else None
+            impl = [n for n in self.names if h in self.reg[n].__mro__]
             if impl:
                 return self.instance(r.choice(impl), depth + 1)
         return None
@@ -395,6 +439,18 @@ class Gen:
                 if self.hints[name].get(f.name) is str and not isinstance(kw[f.name], str):
                     kw[f.name] = "x"
             return cls(**kw)
+
+
+def can_instantiate(cls) -> bool:
+    """False for abstract classes and Protocol classes (their constructor raises TypeError whatever the arguments)."""
+    try:
+        cls(**{f.name: "" for f in dataclasses.fields(cls)})
+    except TypeError as e:
+        if "abstract" in str(e) or "Protocols cannot be instantiated" in str(e):
+            return False
+    except Exception:  # noqa
+        pass
+    return True
 
 
 def has_marker_key(x) -> bool:
@@ -697,12 +753,22 @@ def run(ctx):
     ctx.assumptions += ["CPython 3.12 typing.get_origin/get_args semantics as observed by ty_term",
                         "base64 oracle law dec (enc b) = Some b"]
 
+    import time as _time
+    _t = [_time.time()]
+    ctx.extra["timing"] = {}
+
+    def mark(name):
+        now = _time.time()
+        ctx.extra["timing"][name] = round(now - _t[0], 1)
+        _t[0] = now
+
     reg, reg_problems = gen_registry(ctx)
 
     # ---- proofs
-    ctx.prove("C05/Props.v", ["C05/Proofs.vo"], expected=[
-        "C05_dumps_ok", "C05_roundtrip_partial", "C05_no_binary", "C05_position_restored", "C05_cli_shape",
-        "C05_cli_unit_shape"])
+    ctx.prove("C05/Props.v", ["C05/Proofs.vo", "C05/Roundtrip.vo"], expected=[
+        "C05_dumps_ok", "C05_roundtrip_partial", "C05_roundtrip_value", "C05_no_binary", "C05_position_restored",
+        "C05_cli_shape", "C05_cli_unit_shape", "C05_markers_refuted_any_registry", "C05_xlsx_cell_json_clean",
+        "C05_cli_all_or_nothing"])
     ok_inst, _ = ctx.prove("C05/Inst.v", ["Gen/C05Registry.vo", "C05/Corr.vo", "C05/Proofs.vo"], expected=[
         "C05_registry_wf", "C05_hints_known", "C05_defaults_ok", "C05_markers_never_confused_refuted",
         "C05_roundtrip_hyps_satisfiable"])
@@ -713,13 +779,14 @@ def run(ctx):
                                 "(c_fields c))) R)).\n")
         ctx.extra["registry_bad_classes"] = out[-800:]
 
+    mark("gen+prove")
     g = Gen(ctx, reg)
     hint_pool = extra_hints(reg) + [h for n in reg for h in g.hints[n].values()]
 
     # ---- D1: type-directed instances
     n_inst = ctx.n(1400, 12000)
     insts = []
-    for name in reg:                      # every class at least 4 times
+    for name in g.names:                  # every (instantiable) class at least 4 times
         for _ in range(ctx.n(4, 12)):
             insts.append(g.instance(name))
     while len(insts) < n_inst:
@@ -761,6 +828,7 @@ def run(ctx):
         ctx.case(("inst", vt), nontriv, kind="instance:" + ("marker-key" if has_marker_key(x) else
                                                             "other-leaf" if other_leaves(x) else "clean"))
 
+    mark("instances-python")
     oks, fs, logs = coq_eval_shards(ctx, "ser", PRE, "ser_case", ser_cases, shard=120,
                                     ty="val * list (bytes * str) * json * json * json")
     ctx.traces += len(ser_cases)
@@ -778,6 +846,7 @@ def run(ctx):
     nohyp = set(nh)
     ctx.count("instances-satisfying-roundtrip-hypotheses", len(insts) - len(nohyp))
 
+    mark("instances-coq")
     # property oracle on the implementation
     marker_hits = 0
     for i, x in enumerate(insts):
@@ -807,6 +876,7 @@ def run(ctx):
                         {"instance": hyp_cases[i][:6000], "diffs": diffs})
     ctx.count("marker-confusions-observed", marker_hits)
 
+    mark("instances-oracle")
     # ---- D2: perturbed JSON stream for the deserialiser
     jg = JGen(ctx, reg, hint_pool)
     dcases, dinfo = [], []
@@ -837,6 +907,53 @@ def run(ctx):
     if fd:
         ctx.extra["deser_disagreements"] = [repr(dinfo[i])[:500] for i in fd[:8]]
 
+    mark("json-stream")
+    # ---- D2b: xlsx cell normalisation (model of the repaired _get_cell_value) + replay of the marker witness
+    from sharepoint2text.parsing.extractors.ms_modern import xlsx_extractor as X
+    r = ctx.rng
+    cells = [None, "", "text", "#DIV/0!", "_type", True, False, 0, 7, -3, 2 ** 40, 0.0, 1.5, -2.25, float("nan"),
+             datetime.datetime(2020, 1, 2, 3, 4, 5), datetime.datetime(1999, 12, 31, 23, 59, 59, 123456),
+             datetime.date(2021, 2, 3), datetime.time(1, 2, 3), datetime.time(0, 0), datetime.timedelta(0),
+             datetime.timedelta(hours=1, minutes=30), datetime.timedelta(days=2, seconds=5, microseconds=7),
+             datetime.timedelta(days=-1), decimal.Decimal("1.5"), b"raw", (1, 2)]
+    for _ in range(ctx.n(40, 400)):
+        cells.append(r.choice([r.choice(STR_VOCAB), r.randrange(-10 ** 6, 10 ** 6), r.random() * 1000,
+                               datetime.timedelta(seconds=r.randrange(-10 ** 6, 10 ** 7), microseconds=r.randrange(10 ** 6)),
+                               datetime.datetime(2000, 1, 1) + datetime.timedelta(seconds=r.randrange(10 ** 9)),
+                               (datetime.datetime(2000, 1, 1) + datetime.timedelta(seconds=r.randrange(10 ** 5))).time(),
+                               (datetime.datetime(2000, 1, 1) + datetime.timedelta(days=r.randrange(10 ** 4))).date()]))
+    ccases = []
+    for v in cells:
+        got = X._get_cell_value(v)
+        ccases.append(f"({cell_term(v)}, {val_term(got)})")
+        ctx.case(("cell", repr(v)), v is not None, kind="xlsx-cell:" + type(v).__name__)
+        known = v is None or type(v) in (str, bool, int, float, datetime.datetime, datetime.date, datetime.time,
+                                          datetime.timedelta)
+        if known and other_leaves(got):
+            ctx.finding("xlsx-duration-cell" if isinstance(v, datetime.timedelta) else f"xlsx-cell:{type(v).__name__}",
+                        f"xlsx _get_cell_value keeps a {type(v).__name__} cell value ({v!r}) that json.dumps rejects",
+                        {"cell_value": repr(v), "how": "xlsx_extractor._get_cell_value(value); json.dumps"})
+    okx, fx_, logx = coq_eval_shards(ctx, "cells", PRE, "cell_case", ccases, shard=500, ty="cell * val")
+    ctx.traces += len(ccases)
+    ctx.obligation("correspondence:xlsx _get_cell_value model==implementation", okx and not fx_,
+                   (f"{len(fx_)} disagreements, first: {ccases[fx_[0]] if fx_ else ''} " + logx)[:1200])
+    wm = witness_marker(reg)
+    y, err, stage = roundtrip_impl(wm)
+    ctx.case(("witness", "marker"), True, kind="refutation-witness-replayed")
+    if y is None or same_object_views(wm, y):
+        ctx.finding("marker-key-in-content-dict",
+                    "a dict key equal to _type/_bytes/_bytesio (document content) is taken for a marker by from_json",
+                    {"instance": val_term(wm), "python": "XlsContent(sheets=[XlsSheet(name='Sheet1', data=[{'_bytes': 5, 'name': 'a'}], text='x')])",
+                     "stage": stage, "error": err})
+    else:
+        ctx.obligation("refutation witness C05_markers_never_confused_refuted replays on the implementation", False,
+                       "the implementation restores marker_witness although the model does not")
+    wc = witness_clean(reg)
+    y, err, stage = roundtrip_impl(wc)
+    if y is None or same_object_views(wc, y):
+        ctx.finding("clean-witness-not-restored", f"the non-vacuity witness is not restored: {err}", {"instance": val_term(wc)})
+
+    mark("cells+witness")
     # ---- D3: real extractor outputs
     results_small = []
     with tempfile.TemporaryDirectory(dir="/var/tmp") as tds:
@@ -888,6 +1005,7 @@ def run(ctx):
                     if len(text) < 60_000 and len(results_small) < ctx.n(25, 80):
                         results_small.append((key, o))
 
+        mark("documents")
         # ---- CLI: four JSON modes
         cli_docs = [(lb, p) for lb, p in docs if lb.startswith("xlsx-")]
         fx = {lb: p for lb, p in docs}
@@ -905,6 +1023,7 @@ def run(ctx):
                 continue
             for flag in ("--json", "--json-unit"):
                 for binary in (False, True):
+                    rs = list(sharepoint2text.read_file(str(p)))   # fresh: iterate_units may mutate a result (C06)
                     argv = [str(p), flag] + (["--binary"] if binary else [])
                     rc, out, err = run_cli(argv)
                     ctx.case(("cli", label, flag, binary), True, kind=f"cli:{flag}{'+binary' if binary else ''}:"
@@ -945,6 +1064,7 @@ def run(ctx):
                         pu = pu[0] if len(rs) == 1 else pu
                         cli_cases.append(f"({rterm}, {tb.enc_table()}, {coq_bool(binary)}, {json_term(parsed)}, {json_term(pu)})")
 
+    mark("cli")
     # model vs implementation on the small real results and the CLI payloads
     rcases = []
     for key, o in results_small:
@@ -964,6 +1084,7 @@ def run(ctx):
         ctx.traces += len(cli_cases)
         ctx.obligation("correspondence:cli payload shaping model==implementation", okc and not fc,
                        (f"{len(fc)} disagreements " + logc)[:1500])
+    mark("real+cli-coq")
     ctx.extra["real_results_in_coq"] = len(rcases)
     ctx.extra["cli_cases_in_coq"] = len(cli_cases)
 
